@@ -694,8 +694,15 @@ func (s *Sim) loop() {
 // ---------------------------------------------------------------- harness API
 
 // Go starts a client goroutine under the scheduler.
-func (s *Sim) Go(name string, f func()) {
-	g := &G{Name: name, Client: true, wake: make(chan struct{}), state: gRunning}
+func (s *Sim) Go(name string, f func()) { s.spawn(name, true, f) }
+
+// GoKit starts a goroutine that the harness lends to kit code for a blocking entry point that
+// runs a component's main loop in the caller's goroutine (cron.Run). Liveness and quiescence
+// predicates count it with the goroutines kit code spawns itself.
+func (s *Sim) GoKit(name string, f func()) { s.spawn(name, false, f) }
+
+func (s *Sim) spawn(name string, client bool, f func()) {
+	g := &G{Name: name, Client: client, wake: make(chan struct{}), state: gRunning}
 	s.mu.Lock()
 	s.assignPrio(g)
 	s.all = append(s.all, g)
